@@ -1,16 +1,21 @@
 (** C03 — Spec-valid archives from other writers open to exactly the content they address.
 
-    Full statement (kept visible): for every spec-valid archive [b] (any section order or padding, leaf
-    trees up to depth 3, run lengths, shared / unordered offsets, empty metadata, any codec):
-    [from_reader cx b full_range = Ok p] with [tile_ids p] = the ids its directories address and
-    [get_tile p id] = the entry-length bytes at tile-data offset + entry offset.
-
-    Proved so far ([C03_find_*]): the single-directory clause — looking an id up in a valid directory finds
-    the entry whose run covers it and no other.  The archive-level clause is decided by the
-    correspondence run (model reader vs Rust reader on archives emitted by the independent
-    spec-level writer) and the direct oracle (independent spec reader); the theorem relating
-    [read_directories] to the specification's greatest-entry lookup is work in progress. *)
-Require Import PM.Base PM.Directory PM.DirectoryProofs PM.LookupProofs.
+    Proved:
+    - [C03_open_meets_spec]: for every byte image whose header decodes, whose metadata section is absent or a JSON
+      object, and whose directory tree is spec-valid ([wf_dir]: every directory decodes; entries strictly
+      ascending with non-overlapping runs; every leaf stays between its pointer's tile id and the next entry's;
+      at most three levels of leaves below the root; leaves anywhere in the leaf section, sections anywhere in
+      the file, any supported codec) — [from_reader] succeeds, reports the header's settings and the stored
+      metadata, and for EVERY tile id answers exactly what the lookup procedure of the PMTiles v3
+      specification ([spec_lookup]: in each directory take the last entry whose id is <= the target; a run
+      answers for its ids, a pointer hands over to its leaf) addresses: the entry-length bytes at tile-data
+      offset + entry offset, or 'no such tile';
+    - [C03_reader_meets_spec]: the same for [read_directories] alone, at any depth budget;
+    - [C03_find_*]: the single-directory clause — looking an id up in a valid directory finds the entry whose
+      run covers it and no other.
+    Premise beyond validity: every addressed tile's absolute offset is below 2^64 and its length is not 0
+    (both also demanded by the format).  The listing [tile_ids] is the set of ids with a lookup result. *)
+Require Import PM.Base PM.Oracles PM.Params PM.Directory PM.DirectoryProofs PM.LookupProofs PM.Stream PM.Header PM.TileManager PM.DirReader PM.Archive PM.SpecLookup PM.SpecLookupProofs.
 Open Scope N_scope.
 
 Theorem C03_find_complete : forall es id e, valid_dir es -> In e es -> covers e id -> find_entry es id = Ok (Some e).
@@ -24,6 +29,58 @@ Proof. intros es e e' id [_ Ha]. now apply covers_unique with None. Qed.
 
 Theorem C03_find_no_crash : forall es id c, valid_dir es -> find_entry es id <> Crash c.
 Proof. intros es id c [Hok _]. now apply find_entry_no_crash. Qed.
+
+(** the reader's map is the specification's lookup on every valid directory tree *)
+Theorem C03_reader_meets_spec : forall cx c img leaf_off fuel off len lo hi acc,
+  wf_dir cx c img leaf_off fuel off len lo hi ->
+  exists t, read_dir_rec cx fuel c img off len leaf_off full_range acc = Ok t /\
+    forall id, exists r, spec_lookup cx c img leaf_off fuel off len id = Ok r /\
+      aget id t = (match r with Some ol => Some ol | None => aget id acc end) /\ (r <> None -> lo <= id < hi).
+Proof. exact read_meets_spec. Qed.
+
+(** the opened archive serves exactly what the specification's lookup addresses *)
+Theorem C03_open_meets_spec : forall cx img h rest meta,
+  decode_header img = Ok (h, rest) ->
+  (if h_meta_len h =? 0 then Ok empty_object else read_meta cx (h_icomp h) (section img (h_meta_off h) (h_meta_len h))) = Ok meta ->
+  wf_dir cx (h_icomp h) img (h_leaf_off h) 4 (h_root_off h) (h_root_len h) 0 two64 ->
+  (forall id o l, spec_lookup cx (h_icomp h) img (h_leaf_off h) 4 (h_root_off h) (h_root_len h) id = Ok (Some (o, l)) ->
+                  h_data_off h + o < two64 /\ l <> 0) ->
+  exists p', from_reader cx img full_range = Ok p' /\
+    p_meta p' = meta /\ p_ttype p' = h_ttype h /\ p_tcomp p' = h_tcomp h /\ p_icomp p' = h_icomp h /\
+    p_minz p' = h_minz h /\ p_maxz p' = h_maxz h /\ p_cz p' = h_cz h /\
+    p_min_lon p' = h_min_lon h /\ p_min_lat p' = h_min_lat h /\ p_max_lon p' = h_max_lon h /\
+    p_max_lat p' = h_max_lat h /\ p_clon p' = h_clon h /\ p_clat p' = h_clat h /\
+    forall id, exists r, spec_lookup cx (h_icomp h) img (h_leaf_off h) 4 (h_root_off h) (h_root_len h) id = Ok r /\
+      get_tile (p_tm p') id =
+      match r with
+      | Some (o, l) => do b <- read_at img (h_data_off h + o) l; Ok (Some b)
+      | None => Ok None
+      end.
+Proof. intros cx img h rest meta Hd. exact (open_meets_spec cx img h rest meta Hd eq_refl). Qed.
+
+(** non-vacuity: a two-level tree (the leaf stored BEFORE the root, a run of 2, a gap) is spec-valid, and the
+    reader and the specification's lookup agree on it *)
+Definition ex_leaf : bytes := match encode_dir ctx_id false CNone [mkEntry 5 0 3 2; mkEntry 9 3 1 1] with Ok b => b | _ => [] end.
+Definition ex_root : bytes := match encode_dir ctx_id false CNone [mkEntry 5 0 (nlen ex_leaf) 0; mkEntry 20 4 2 1] with Ok b => b | _ => [] end.
+Definition ex_img : bytes := ex_leaf ++ ex_root.
+Example C03_example_wf : wf_dir ctx_id CNone ex_img 0 4 (nlen ex_leaf) (nlen ex_root) 0 two64.
+Proof.
+  cbn [wf_dir]. exists [mkEntry 5 0 (nlen ex_leaf) 0; mkEntry 20 4 2 1]. split; [vm_compute; reflexivity|].
+  split; [lia|]. split; [cbn; lia|].
+  cbn [wf_entries e_id e_run e_off e_len N.eqb]. split; [lia|]. split.
+  - exists 0. split; [vm_compute; reflexivity|]. exists [mkEntry 5 0 3 2; mkEntry 9 3 1 1]. split; [vm_compute; reflexivity|].
+    split; [unfold two64; lia|]. split; [cbn; lia|].
+    cbn [wf_entries e_id e_run N.eqb Pos.eqb]. repeat split; unfold two64; try lia.
+    + change (2 =? 0) with false. cbv iota. lia.
+    + change (1 =? 0) with false. cbv iota. lia.
+  - split; [unfold two64; lia|]. split; [change (1 =? 0) with false; cbv iota; unfold two64; lia|exact I].
+Qed.
+Example C03_example_tree :
+  (read_dir_rec ctx_id 4 CNone ex_img (nlen ex_leaf) (nlen ex_root) 0 full_range [],
+   map (spec_lookup ctx_id CNone ex_img 0 4 (nlen ex_leaf) (nlen ex_root)) [4; 5; 6; 7; 9; 10; 20; 21])
+  = (Ok [(20, (4, 2)); (9, (3, 1)); (6, (0, 3)); (5, (0, 3))],
+     [Ok None; Ok (Some (0, 3)); Ok (Some (0, 3)); Ok None; Ok (Some (3, 1)); Ok None; Ok (Some (4, 2)); Ok None]).
+Proof. vm_compute. reflexivity. Qed.
 
 Example C03_example : find_entry [mkEntry 1 0 5 2; mkEntry 3 9 9 0; mkEntry 10 5 1 3] 11 = Ok (Some (mkEntry 10 5 1 3))
   /\ find_entry [mkEntry 1 0 5 2; mkEntry 3 9 9 0; mkEntry 10 5 1 3] 3 = Ok None.
